@@ -540,6 +540,9 @@ def simple_check(ctx, jobs, rule, nontrivial, describe=None, known_filter=None, 
         elif not hb_ok or failures:
             violation(ctx, "correspondence harness does not build/run against the current tree",
                       dict(kind="correspondence-broken", detail=(hb_out[-1500:] if not hb_ok else str(failures))), no_input=True)
+        elif not lines:
+            # nothing was compared: never a pass
+            violation(ctx, "the correspondence run produced no cases", dict(kind="correspondence-broken", detail="0 harness lines"), no_input=True)
         elif diffs or crashes:
             l, a = (diffs + crashes)[0]
             violation(ctx, f"model and implementation disagree ({correspondence}); no clause of {pid} fails on the implementation: {a[:200]}",
